@@ -20,7 +20,7 @@ from vf import prog, sem, members
 from vf.refconds import RP, inner, sq, lin, const
 
 PROP = "C08"
-CASES = {"quick": 6000, "thorough": 150000}
+CASES = {"quick": 6000, "thorough": 1500000}
 RULE = ("sym: step in the 8 primitive steps x options (absolute/relative, PD_gapI/II/III) x step size / accuracy x start point "
         "(leaf or combination) x function (leaf or weighted sum of two leaves); real: the same steps on real quadratics / "
         "l1 / box indicators / quadratic mirror maps in dimension 1-4.  Non-trivial = non-leaf start point, non-default "
